@@ -183,7 +183,7 @@ fn mixture_sweep(tr: &mut Tr, rng: &mut Rng, thorough: bool) {
 pub fn run(args: &Args) {
     let mut tr = Tr::create(&args.out);
     let mut rng = Rng::new(args.seed ^ 0x08);
-    let k = if args.thorough { 40 } else { 5 };
+    let k = if args.thorough { 40 } else { 8 };
     // 1. functionals evaluated for a homogeneous fluid vs equations of state
     let pcs: Vec<(&str, Arc<PcSaftParameters>, f64)> = vec![
         ("propane", pc(&["propane"], "pcsaft/gross2001.json", None), 370.0),
